@@ -191,6 +191,17 @@ func (e *Env) eval(x Expr) (tval, error) {
 		if !x.Forall {
 			q = "exists"
 		}
+		if len(x.Pats) > 0 {
+			var ps []string
+			for _, pe := range x.Pats {
+				pv, err := ne.eval(pe)
+				if err != nil {
+					return tval{}, err
+				}
+				ps = append(ps, pv.C[0])
+			}
+			b = "(! " + b + " :pattern (" + strings.Join(ps, " ") + "))"
+		}
 		return tval{T: boolT, C: []string{"(" + q + " (" + strings.Join(binders, " ") + ") " + b + ")"}}, nil
 	}
 	return tval{}, fmt.Errorf("unsupported expression %T", x)
@@ -971,7 +982,27 @@ func (e *Env) applySpec(sf *SpecFunc, args []tval) (tval, error) {
 		for i, p := range sf.Params {
 			ne.vars[p[0]] = args[i]
 		}
-		return ne.eval(sf.Body)
+		r, err := ne.eval(sf.Body)
+		if err != nil {
+			return r, err
+		}
+		// name long non-boolean results (e.g. den(v)): shorter queries, one e-graph node per value
+		if len(r.C) == 1 && len(r.C[0]) > 60 && r.Addr == nil && !strings.Contains(r.C[0], "q_") && !isBool(r.T) {
+			if lay := e.l().layout(r.T); len(lay) == 1 && lay[0] != SBool {
+				vc := e.vc()
+				if vc.macroNames == nil {
+					vc.macroNames = map[string]string{}
+				}
+				nm, ok := vc.macroNames[r.C[0]]
+				if !ok {
+					nm = vc.fresh(sf.Name, lay[0])
+					vc.emit("(assert (= " + nm + " " + r.C[0] + "))")
+					vc.macroNames[r.C[0]] = nm
+				}
+				r.C = []string{nm}
+			}
+		}
+		return r, nil
 	}
 	ret := sf.Ret
 	var reads []string
